@@ -109,11 +109,17 @@ JRemarshal(rec) ==
           <<rec.remarshal.ok, "the marshalled typed document is rejected by its own parser">>,
           <<rec.remarshal.flat = rec.flat, "marshalling the typed document and parsing that text again does not give the same document">> >>)
 
+JApi(rec) == LET want == ApiContract(rec.in.case) IN
+    Checks("api-" \o rec.in.case,
+       << <<~rec.panic, "a call of the reflection API panicked">>,
+          <<want = "error" => rec.err, "a misuse of the reflection API is not reported as an error">>,
+          <<want = "same" => (~rec.err /\ rec.equal), "two routes of the reflection API that should agree do not">> >>)
+
 Judge(rec) ==
     CASE rec.ev = "vacc" -> JVacc(rec) [] rec.ev = "archs" -> JArchs(rec) [] rec.ev = "wild" -> JWild(rec)
       [] rec.ev = "byhash" -> JByHash(rec) [] rec.ev = "getdsc" -> JGetDsc(rec) [] rec.ev = "compressor" -> JCompressor(rec)
       [] rec.ev = "decompressor" -> JDecompressor(rec) [] rec.ev = "xzdict" -> JXz(rec) [] rec.ev = "loadfile" -> JLoadFile(rec)
-      [] rec.ev = "filevariants" -> JFileVariants(rec) [] rec.ev = "clheader" -> JClHeader(rec) [] rec.ev = "srcfault" -> JSrcFault(rec) [] rec.ev = "colonblank" -> JColonBlank(rec) [] rec.ev = "doc" -> JRemarshal(rec) [] rec.ev = "keys" -> V(TRUE, "aux", "")
+      [] rec.ev = "filevariants" -> JFileVariants(rec) [] rec.ev = "clheader" -> JClHeader(rec) [] rec.ev = "srcfault" -> JSrcFault(rec) [] rec.ev = "colonblank" -> JColonBlank(rec) [] rec.ev = "doc" -> JRemarshal(rec) [] rec.ev = "api" -> JApi(rec) [] rec.ev = "keys" -> V(TRUE, "aux", "")
       [] OTHER -> V(FALSE, "unknown-event", "unknown event")
 
 Init == l \in 1..Len(Trace) /\ verdict = Pending
